@@ -3,8 +3,8 @@ package main
 // oracle: the property statement evaluated on the REAL generated filters, independently of the
 // Lean model.  For every `req` line of a case: decision of the generated RBAC (reference
 // interpreter over the real proto) vs the policy semantics (spec.go).
-//   HTTP listener: the two decisions must be equal.
-//   TCP listener : the generated filters must never be more permissive than the policy.
+// The two decisions must be equal on every chain (HTTP, TCP, TCP rules as HTTP filter): the statement's
+// clause 2 (spec.go) fixes the decision for rules that cannot be expressed, so there is no waiver.
 // For cases without `req` lines (stream compile) requests are derived from the case's constants.
 
 import (
@@ -100,14 +100,24 @@ func judge(s *sut, r *request, compiled, spec bool, f []string, all []*request) 
 	if !compiled {
 		clause = "more-restrictive"
 	}
-	return fmt.Sprintf("FAIL %s:%s class=%s compiled=%s spec=%s %s", kind, clause, classify(s, all), decTok(compiled), decTok(spec), strings.Join(f, " "))
+	return fmt.Sprintf("FAIL %s:%s class=%s compiled=%s spec=%s %s", kind, clause, classify(s, r, all), decTok(compiled), decTok(spec), strings.Join(f, " "))
 }
 
-// classify names the minimal input class of a disagreement (used as the finding fingerprint). A known
-// class is reported only when reading ONE value of the policies the way today's generated matcher
-// behaves makes the statement agree with the generated filters on EVERY request of the case; any
-// other disagreement (or one a single such value does not fully explain) is "other".
-func classify(s *sut, all []*request) string {
+// classNames: loose reading (spec.go) -> finding fingerprint.
+var classNames = map[string]string{
+	"ns":  "namespace-regex-spans-slash",
+	"jwt": "request-principal-prefix-inside-issuer",
+	"hdr": "header-presence-matches-empty-value",
+	"tdp": "principal-prefix-trust-domain-rewritten",
+}
+
+// classify names the input class of a disagreement (used as the finding fingerprint). A known class is
+// reported only when reading single policy values the way today's generated matcher behaves makes the
+// statement agree with the generated filters on EVERY request of the case: first one value alone; if no
+// single value explains the whole case, a minimal set of such values (each one necessary) - the class
+// reported is then that of a value the failing request itself needs. Anything else is "other".
+func classify(s *sut, r *request, all []*request) string {
+	defer func() { loose = map[looseKey]bool{} }()
 	explains := func() bool {
 		for _, q := range all {
 			if specDecision(s, q) != evalFilters(s.built, q) {
@@ -116,61 +126,94 @@ func classify(s *sut, all []*request) string {
 		}
 		return true
 	}
-	nsVals, rpVals := map[string]bool{}, map[string]bool{}
+	var cands []looseKey
+	seen := map[looseKey]bool{}
+	add := func(class, v string) {
+		k := looseKey{class, v}
+		if !seen[k] {
+			seen[k] = true
+			cands = append(cands, k)
+		}
+	}
+	value := func(key, v string) {
+		switch {
+		case key == "source.namespace":
+			// today's namespace matcher is the unanchored regex `.*/ns/<glob with .*>/.*`
+			add("ns", v)
+		case key == "request.auth.principal":
+			// a `prefix*` value is split at ITS last '/' into an exact issuer and a subject prefix
+			if !strings.HasPrefix(v, "*") && strings.HasSuffix(v, "*") && v != "*" {
+				add("jwt", v)
+			}
+		case key == "source.principal":
+			// `prefix*` trust-domain part of a five-part principal
+			if p := strings.Split(v, "/"); len(p) == 5 && tdPrefixForm(p[0]) {
+				add("tdp", v)
+			}
+		case strings.HasPrefix(key, "request.headers"):
+			// "*" compiles to present_match, which an empty header value satisfies
+			if v == "*" {
+				add("hdr", "*")
+			}
+		}
+	}
 	for i := range s.policies {
 		for _, rule := range s.policies[i].Spec.Rules {
 			for _, f := range rule.GetFrom() {
 				if src := f.GetSource(); src != nil {
 					for _, v := range append(append([]string{}, src.Namespaces...), src.NotNamespaces...) {
-						nsVals[v] = true
+						value("source.namespace", v)
 					}
 					for _, v := range append(append([]string{}, src.RequestPrincipals...), src.NotRequestPrincipals...) {
-						rpVals[v] = true
+						value("request.auth.principal", v)
+					}
+					for _, v := range append(append([]string{}, src.Principals...), src.NotPrincipals...) {
+						value("source.principal", v)
 					}
 				}
 			}
 			for _, c := range rule.GetWhen() {
 				for _, v := range append(append([]string{}, c.Values...), c.NotValues...) {
-					switch c.Key {
-					case "source.namespace":
-						nsVals[v] = true
-					case "request.auth.principal":
-						rpVals[v] = true
-					}
+					value(c.Key, v)
 				}
 			}
 		}
 	}
-	// today's namespace matcher is the unanchored regex `.*/ns/<glob with .*>/.*`
-	for v := range nsVals {
-		if !strings.Contains(v, "*") {
-			continue
-		}
-		looseNamespace, looseValue = true, v
-		ok := explains()
-		looseNamespace, looseValue = false, ""
-		if ok {
-			return "namespace-regex-spans-slash"
+	for _, k := range cands {
+		loose = map[looseKey]bool{k: true}
+		if explains() {
+			return classNames[k.class]
 		}
 	}
-	// a `prefix*` requestPrincipals value is split at ITS last '/' into an exact issuer and a subject prefix
-	for v := range rpVals {
-		if strings.HasPrefix(v, "*") || !strings.HasSuffix(v, "*") || v == "*" {
-			continue
-		}
-		looseJWTPrefix, looseValue = true, v
-		ok := explains()
-		looseJWTPrefix, looseValue = false, ""
-		if ok {
-			return "request-principal-prefix-inside-issuer"
+	// several deviating values in one case
+	loose = map[looseKey]bool{}
+	for _, k := range cands {
+		loose[k] = true
+	}
+	if len(cands) < 2 || !explains() {
+		return "other"
+	}
+	for _, k := range cands {
+		delete(loose, k)
+		if !explains() {
+			loose[k] = true
 		}
 	}
-	// request.headers[..]: "*" compiles to present_match, which an empty header value satisfies
-	looseHeaderPresence, looseValue = true, "*"
-	ok := explains()
-	looseHeaderPresence, looseValue = false, ""
-	if ok {
-		return "header-presence-matches-empty-value"
+	for _, k := range cands {
+		if !loose[k] {
+			continue
+		}
+		delete(loose, k)
+		needed := specDecision(s, r) != evalFilters(s.built, r)
+		loose[k] = true
+		if needed {
+			return classNames[k.class]
+		}
+	}
+	for _, k := range cands {
+		if loose[k] {
+			return classNames[k.class]
+		}
 	}
 	return "other"
 }
